@@ -36,6 +36,9 @@ OUTSIDE = [
 EXPLANATION = 'fee_growth_outside bookkeeping lemmas: growth counts iff in range, crossing and (re)initialisation keep `inside`, credit = F(L, inside - checkpoint) or 0 on overflow'
 
 
+TECHNIQUE = TECHNIQUE + '; complemented by Engine M (rustc MIR -> integer SMT, z3 5.1): collect_fees(_v2) handlers in handler mode (pay exactly fee_owed, reset), the credit leaf kernel, the swap-loop wiring of fee growth at crossings (W4)'
+
+
 def run(ctx):
     # Engine M complement (props/mextra.py): the swap loop's crossing/fee/reward wiring (Floyd verification shared with C03) and, where relevant, the payout handlers and leaf kernels
     from props import mextra
